@@ -942,7 +942,12 @@ func (c *Ctx) boundedFor(h *ssa.BasicBlock, body map[*ssa.BasicBlock]bool) (bool
 		}
 		// bound defined outside the loop
 		if bi, ok := bound.(ssa.Instruction); ok && bi.Block() != nil && body[bi.Block()] {
-			if call, isCall := bound.(*ssa.Call); !isCall || !strings.HasSuffix(P.calleeName(call.Common()), ".Len") && !strings.HasSuffix(P.calleeName(call.Common()), ".NumMethods") {
+			call, isCall := bound.(*ssa.Call)
+			if !isCall {
+				continue
+			}
+			cn := P.calleeName(call.Common())
+			if !strings.HasSuffix(cn, ".Len") && !strings.HasSuffix(cn, ".NumMethods") && cn != "builtin len" {
 				continue
 			}
 		}
